@@ -1,6 +1,7 @@
 import XlModel.Cfb
 import XlModel.Crypt
 import XlModel.Sha1
+import XlModel.CryptFull
 import XlModel.Generated.Facts
 import XlModel.Drv.Util
 namespace XlModel.Drv.C13
@@ -175,6 +176,11 @@ def step (w : List String) : String :=
       | some .zipErr => "other"
       | some .later => "other"
     s!"content={if content then 1 else 0} err={cls}"
+  | ["einfo", sa, ev, eh] =>
+    match unhexS sa, unhexS ev, unhexS eh with
+    | some a, some b, some c =>
+      hexS ((CryptFull.assembleInfo (a.map Char.toNat) (b.map Char.toNat) (c.map Char.toNat)).map Char.ofNat)
+    | _, _, _ => "bad-op"
   | ["u16", pw] =>
     match unhexS pw with
     | some bs =>
